@@ -15,7 +15,7 @@ RULE = (
     "DUMP_SCHEDULER_STATE the dump interval is 0 so the dump code really runs; with COLLECT_PERF_STATS a scripted clock "
     "assigned to asynq.scheduler.utime reports per-call elapsed times from 1 microsecond to 3 hours. Diagnostics go to a "
     "captured file descriptor. Oracle: the complete harness event log (every task step, yield, resumption, flush "
-    "composition and order, context pause/resume, value received, caught exception) and the outcome must be identical "
+    "composition and order, context pause/resume, value received, caught exception, and whether get_active_task() is the running task at every step and after every nested sync call) and the outcome must be identical "
     "to the default run, on both builds. Reach: per option, runs in which it produced diagnostic output / profiler "
     "entries. distinct = (program hash, option subset); non-trivial = at least 2 task instances and 1 flush."
 )
@@ -121,6 +121,26 @@ def trace_of(rt, out):
     return [("outcome", repr(out[:2]))] + [ev for ev in rt.log]
 
 
+def _active_probe(rt, fr, k):
+    from asynq import scheduler as S
+
+    t = S.get_active_task()
+    mine = rt.task_of_frame.get(id(fr))
+    if mine is None and t is not None and t.args and t.args[-1] is fr:
+        rt.task_of_frame[id(fr)] = t
+        rt.keep.append(fr)
+        mine = t
+    rt.emit("active_task_is_me", fr.path, k, t is mine and t is not None)
+
+
+def _after_sync_probe(rt, fr, ok):
+    from asynq import scheduler as S
+
+    t = S.get_active_task()
+    mine = rt.task_of_frame.get(id(fr))
+    rt.emit("active_task_after_sync_call_is_me", fr.path, mine is not None and t is mine)
+
+
 def run_once(prog, how, seed, settings, clock, outfile):
     import asynq
     import asynq.scheduler as S
@@ -141,6 +161,9 @@ def run_once(prog, how, seed, settings, clock, outfile):
         if clock is not None:
             S.utime = clock
         rt = harness.HarnessRT(prog, prio=PRIO, seed=seed)
+        # what a program can observe also includes who the active task is
+        rt.step_probes.append(_active_probe)
+        rt.sync_probes.append(_after_sync_probe)
         out = rt.run(how)
     finally:
         S.utime = old_utime
@@ -197,7 +220,14 @@ def run_unit(unit, progress):
         if any(ev[0] == "syncitem" for ev in rt0.log):
             inc("programs_with_synchronous_item_value")
         bad = False
-        for label, settings in subsets_for(i, rnd, unit.get("nsub", 3)):
+        subs = subsets_for(i, rnd, unit.get("nsub", 3))
+        if any(ev[0] == "sync_enter" for ev in rt0.log) and not any(st.get("COLLECT_PERF_STATS") for _l, st in subs):
+            st = dict(DEFAULTS)
+            st["COLLECT_PERF_STATS"] = True
+            if rnd.random() < 0.5:
+                st["KEEP_DEPENDENCIES"] = True
+            subs.append(("perf-for-sync-programs", st))
+        for label, settings in subs:
             clock = None
             big = False
             if settings.get("COLLECT_PERF_STATS"):
